@@ -253,7 +253,7 @@ static bool runScenario(uint64_t seed, uint64_t idx, int which)
   int nThreads = int(rng.range(2, 6));
   int perThread = int(rng.range(20, 120));
   int shutdownKind = int(rng.below(4)); // 0 stop at quiescence 1 drain at quiescence 2 stop racing schedulers 3 drain racing schedulers
-  size_t total = size_t(nThreads) * perThread * 2 + 16;
+  size_t total = size_t(nThreads) * perThread * 2 + 16 + 600;
   for (size_t i = 0; i < total; i++) S->recs.emplace_back(new Rec());
   uint32_t clockDelayUs = (shutdownKind >= 2 && rng.chance(0.7)) ? uint32_t(rng.range(50, 500)) : 0;
 #if !VF_TSAN
@@ -337,6 +337,17 @@ static bool runScenario(uint64_t seed, uint64_t idx, int which)
     }
     // quiescence: every one-shot deadline (<= 400 ms, + reschedules) has passed with slack
     vf::sleepMs(400 + 400 + 250);
+  }
+  // burst with (nearly) one common deadline landing around the shutdown call: the service collects the
+  // whole burst in one pass, so stop()/drain() must wait for handlers that are collected but not yet started
+  if (rng.chance(0.5))
+  {
+    int burst = int(rng.range(50, 500));
+    uint64_t d = rng.range(4, 20);
+    for (int i = 0; i < burst; i++) { Rec *r = newRec(S); if (!r) break; doSchedule(S, r, d, false, (i == 0 && rng.chance(0.5)) ? 1 : 0, rng.next()); }
+    double lead = double(rng.below(4000)) / 1000.0; // begin shutdown 0..4 ms before the burst is due
+    vf::sleepMs(std::max(0.0, double(d) - lead));
+    O.obs("bursts_due_around_shutdown");
   }
   uint64_t quiescentNs = vf::nowNs();
   // late (periodic) timers: cancel the remaining periodic ones before a quiescent stop so the rule
